@@ -181,6 +181,7 @@ def worker(ob):
             want_kind = {"Zero": "F64", "One": "Dual", "Two": "Dual2"}[ob["o"]]
             props.append(("result kind", kg == want_kind))
             props.append(("value unchanged", fr_eq(rg, rv_)))
+            conv_soft = ("the value is moved, not recomputed (bit-exact)", not rg.ar)
             inner = m.strip(res).fields[0]
             if isinstance(inner, Struct):
                 props.append(("well-formed", shape_ok(S, inner)))
@@ -243,6 +244,7 @@ def worker(ob):
             want_kind = {"f64": "F64", "Dual": "Dual", "Dual2": "Dual2", "Number": ks}[tgt]
             props.append(("target kind", kg == want_kind))
             props.append(("value kept", fr_eq(rg, rs)))
+            conv_soft = ("the value is moved, not recomputed (bit-exact)", not rg.ar)
             inner = m.strip(res)
             if isinstance(inner, Enum):
                 inner = inner.fields[0]
@@ -485,10 +487,33 @@ def worker(ob):
                     break
             out["reproduced"] = bool(out["mismatch"])
             return out
+        def conv_pool_replay(model):
+            import math
+            env0 = input_env(model, inputs, extra) if model is not None else None
+            out = {"scenario": None, "mismatch": [], "native": {}, "reproduced": False}
+            if env0 is None:
+                return out
+            for x in (0.1, 49.0, 1e-310, -0.0, 1.0 / 3.0, 1.7976931348623157e308, 5e-324):
+                env = dict(env0); env[str(inputs[0]["real"])] = x
+                sc_ = mk_sc(env)
+                for prof in ("dev", "release"):
+                    o = native_run([sc_], prof)[0]
+                    g = o.get("real")
+                    if g is None or o.get("panic") or "error" in o:
+                        continue
+                    if g != x or math.copysign(1.0, g) != math.copysign(1.0, x):
+                        out["mismatch"].append(f"{prof}: conversion changes the value {x!r} into {g!r}")
+                        out["scenario"] = sc_; out["native"][prof] = o
+                if out["mismatch"]:
+                    break
+            out["reproduced"] = bool(out["mismatch"])
+            return out
         add_props(chk, props, replay)
         if kind == "numop":
             for d_, ok_ in soft:
                 chk.add_soft(d_, ok_, pool_replay)
+        if kind in ("set_order", "from"):
+            chk.add_soft(conv_soft[0], conv_soft[1], conv_pool_replay)
         return chk
     return explore_ob(harness, max_paths=4000, max_seconds=1200)
 
